@@ -220,7 +220,7 @@ impl<'a, F: Float, K: 'a + Permutable<F>> SolverState<'a, F, K> {
             for i in self.nactive()..self.ntotal() {
                 let dist_i = self.kernel.distances(i, self.nactive());
                 for j in 0..self.nactive() {
-                    if self.alpha[i].free_floating() {
+                    if self.alpha[j].free_floating() {
                         self.gradient[i] += self.alpha[j].val() * dist_i[j];
                     }
                 }
